@@ -192,5 +192,6 @@ pub fn c10(a: &Args) {
         one(&mut out, &path, &path, &mut d, None, &tmp, 7, false);
     }
     crate::cli_props::cli_pass(a, &mut out, &mut rng, &["save"]);
-    out.finish("(+ CLI pass: the rebuilt binary's `save` on a sample of the models) every model of the C01 space (counted: d4 inputs that had to be smoothed, n-ary or-nodes, all-free models), c2d inputs with true nodes, models reached by a unit-clause edit, by a recompiling incremental edit, by clause-update and by clause-update + undo-update (reference compiler behind the hook), corpus: save with the real writer (library and stream), file compared with the model writer, truth table of the file text vs the original, reload with the real loader compared node by node with the model's parse+flatten, reloaded array checked well-formed by the driver, and a battery (counts, sat, core with assumptions, enumeration set, atomic sets plain and cross) answered identically");
+    crate::shifted_props::shifted(a, &mut out, &mut rng, &["save"]);
+    out.finish("(+ renumbered models: features base+1..base+n for base 126 / 254 / 1020, judged by the small model's truth table: save) (+ CLI pass: the rebuilt binary's `save` on a sample of the models) every model of the C01 space (counted: d4 inputs that had to be smoothed, n-ary or-nodes, all-free models), c2d inputs with true nodes, models reached by a unit-clause edit, by a recompiling incremental edit, by clause-update and by clause-update + undo-update (reference compiler behind the hook), corpus: save with the real writer (library and stream), file compared with the model writer, truth table of the file text vs the original, reload with the real loader compared node by node with the model's parse+flatten, reloaded array checked well-formed by the driver, and a battery (counts, sat, core with assumptions, enumeration set, atomic sets plain and cross) answered identically");
 }
